@@ -79,10 +79,12 @@ def check_decl(dc, st, tier, only=None):
 
 def run(tier):
     st = ea.run(MODULE, tier)
+    LADDER_NOTE = '; plus the shared size and structure ladders (mc/alphabet.py boundary_specs / structure_specs): lengths and counts 5, 8, 9, 16, 17, 32, 33, 64, 65, 128, 129, 255, 256, 257, 1024, 1025, 4096, 4097, 8192, 8193 behind one-, two- and three-byte length fields with their exact encodings (and the same cut short), constant counts and sizes 15..257 first in a packet, far positions (holes of 255..8192 bytes), chains of 4..8 references, lists of lists of lists, nine-byte integers, bit runs of 40/72/80 bits, declarations of 24 components and runs of 17..40 fixed fields, holders whose options differ from the held class, the nested class alone on the field-by-field loop'
     cov = ea.coverage(st, 'declarations over the repeated/optional/reference rows of the alphabet (count/condition as constant, field, '
                           'expression, callable; until; when; per-element alignment; selector references; nesting through wrappers), alone, '
                           'paired with each other and with plain neighbours; all inputs up to the bound; unpack vs the reference interpretation '
                           '(acceptance, values, end offset); states = distinct (declaration, wrapper, reference outcome, implementation outcome, input length)')
+    cov['rule'] += LADDER_NOTE
     return {'stats': st, 'coverage': cov, 'assumptions': ['reference interpreter mc/refsem.py (DESIGN.md appendix A)']}
 
 
